@@ -284,6 +284,46 @@ def getCoordinates {α : Type} (g : Group α) (k : Int) (ct : Int) : Except ErrK
         | some a => .ok a
         | none => .error .index
 
+/-! ### call histories: `get_graphic_data` fills the cache `_graphic_data` of a parsed group -/
+
+inductive Access
+  | whole              -- get_graphic_data(ct)
+  | nth (k : Int)      -- get_coordinates(k, ct)
+  deriving Repr, DecidableEq
+
+inductive Obs (α : Type)
+  | whole (gd : GData α)
+  | nth (a : Annot α)
+
+/-- `get_graphic_data` with its side effect: a parsed group keeps what it decoded -/
+def getGraphicDataS {α : Type} (g : Group α) (ct : Int) : Except ErrKind (GData α × Group α) :=
+  match g.cache with
+  | some (t, gd) => if t = ct then .ok (gd, g) else .error .value
+  | none => match decode g.gtype g.enc ct with
+    | .error e => .error e
+    | .ok gd => .ok (gd, { g with cache := some (ct, gd) })
+
+/-- one access: its answer and the state of the object afterwards (an exception raised after the decoding
+has happened leaves the cache filled) -/
+def accessS {α : Type} (g : Group α) (ct : Int) : Access → Except ErrKind (Obs α) × Group α
+  | .whole => match getGraphicDataS g ct with
+    | .error e => (.error e, g)
+    | .ok (gd, g') => (.ok (.whole gd), g')
+  | .nth k => match coordIndex k with
+    | .error e => (.error e, g)
+    | .ok i => match getGraphicDataS g ct with
+      | .error e => (.error e, g)
+      | .ok (gd, g') =>
+        if i < 0 then (.error .other, g')
+        else match gd[i.toNat]? with
+          | some a => (.ok (.nth a), g')
+          | none => (.error .index, g')
+
+/-- the answers of a sequence of accesses on one object -/
+def runHistory {α : Type} (g : Group α) (ct : Int) : List Access → List (Except ErrKind (Obs α))
+  | [] => []
+  | a :: rest => (accessS g ct a).1 :: runHistory (accessS g ct a).2 ct rest
+
 /-! ### measurements: `none` is NaN -/
 
 structure MeasEnc (β : Type) where
